@@ -12,42 +12,88 @@ from pyvc.engine import Exec
 from pyvc import calls as calls_mod
 
 
+def _check(pc, goal, timeout_ms):
+  s = z3.Solver()
+  s.set('timeout', timeout_ms)
+  s.add(*pc)
+  s.add(z3.Not(goal))
+  return s.check(), s
+
+
+_sk = [0]
+
+
+def _prove_pivots(pc, g, pivots, timeout_ms):
+  """∀i. body(i) proved by skolemising i and splitting on its position relative to the
+  pivot terms named by the contract (i < p, i = p, i > p): an exhaustive case split."""
+  import itertools
+  if not (z3.is_quantifier(g) and g.is_forall() and g.num_vars() == 1
+          and g.var_sort(0) == z3.IntSort() and pivots):
+    return None
+  _sk[0] += 1
+  sk = z3.Int(f'sk!{_sk[0]}')
+  body = z3.substitute_vars(g.body(), sk)
+  last = None
+  for combo in itertools.product((0, 1, 2), repeat=len(pivots)):
+    lits = [(sk < p, sk == p, sk > p)[c] for p, c in zip(pivots, combo)]
+    r, s = _check(list(pc) + lits, body, timeout_ms)
+    last = s
+    if r != z3.unsat:
+      return r, s
+  return z3.unsat, last
+
+
+def _prove_split(pc, goal, timeout_ms, pivots=()):
+  """Whole goal first (short), then conjunct by conjunct (then pivot splits)."""
+  r, s = _check(pc, goal, min(timeout_ms, 2000))
+  if r != z3.unknown:
+    return r, s
+  parts = []
+  _conjuncts(z3.simplify(goal), parts)
+  if len(parts) <= 1 and not pivots:
+    return _check(pc, goal, timeout_ms)
+  for g in parts:
+    r, s = _check(pc, g, min(timeout_ms, 3000) if pivots else timeout_ms)
+    if r == z3.unknown and pivots:
+      rp = _prove_pivots(pc, g, pivots, timeout_ms)
+      if rp is not None:
+        r, s = rp
+      else:
+        r, s = _check(pc, g, timeout_ms)
+    if r != z3.unsat:
+      return r, s
+  return z3.unsat, s
+
+
 def discharge(ob, timeout_ms, use_cvc5=True):
-  """One SMT query per obligation: pc ∧ ¬goal."""
+  """One SMT query per obligation: pc ∧ ¬goal; on `unknown` the query is made smaller
+  (conjuncts of the goal, then the contract's exhaustive case split)."""
   if ob.verdict is not None:
     return
   t0 = time.time()
-  s = z3.Solver()
-  s.set('timeout', min(timeout_ms, 2000))
-  s.add(*ob.pc)
-  s.add(z3.Not(ob.goal))
-  r = s.check()
+  pivots = list(getattr(ob, 'pivots', ()) or ())
+  r, s = _prove_split(ob.pc, ob.goal, timeout_ms, pivots)
   ob.solver = 'z3'
+  if r == z3.unknown and ob.cases:
+    # exhaustive case split on the contract's atoms; each atom is replaced by its truth value
+    import itertools
+    ob.solver = 'z3/cases'
+    allok = True
+    for combo in itertools.product([True, False], repeat=len(ob.cases)):
+      sub = [(a, z3.BoolVal(v)) for a, v in zip(ob.cases, combo)]
+      lits = [a if v else z3.Not(a) for a, v in zip(ob.cases, combo)]
+      pc2 = [z3.simplify(z3.substitute(p, *sub)) for p in ob.pc] + lits
+      if any(z3.is_false(p) for p in pc2):
+        continue
+      g2 = z3.simplify(z3.substitute(ob.goal, *sub))
+      r2, s2 = _prove_split(pc2, g2, timeout_ms, [z3.simplify(z3.substitute(p, *sub)) for p in pivots])
+      if r2 != z3.unsat:
+        allok = False
+        r, s = r2, s2
+        break
+    if allok:
+      r = z3.unsat
   ob.verdict = str(r)
-  if r == z3.unknown:
-    # keep each query small: discharge the conjuncts of the goal one by one
-    parts = []
-    _conjuncts(z3.simplify(ob.goal), parts)
-    if len(parts) > 1:
-      allok = True
-      for g in parts:
-        s2 = z3.Solver()
-        s2.set('timeout', timeout_ms)
-        s2.add(*ob.pc)
-        s2.add(z3.Not(g))
-        r2 = s2.check()
-        if r2 != z3.unsat:
-          allok = False
-          s, r = s2, r2
-          break
-      if allok:
-        r = z3.unsat
-      ob.solver = 'z3/split'
-      ob.verdict = str(r)
-    else:
-      s.set('timeout', timeout_ms)
-      r = s.check()
-      ob.verdict = str(r)
   if r == z3.sat:
     try:
       ob.model = s.model()
